@@ -96,6 +96,7 @@ Section Phase.
   Variable cfg : chan_cfg.
   Variable c : cond.
   Variable k : bytes -> prog R.
+  Variable h : err -> prog R.   (* error continuation of the read-until (unused by Rd/Op) *)
   Variable T : bytes.           (* the normalised stream the phase sees *)
   Variable lo : nat.
   Variable d : D.
@@ -104,7 +105,7 @@ Section Phase.
 
   (* still inside the read-until *)
   Definition in_phase (s : @sys D R) : Prop :=
-    s_pc s = Until c k /\ s_dev s = d /\ s_wlog s = wl /\ s_notes s = nt /\ s_reader s = RRun /\
+    s_pc s = Until c k h /\ s_dev s = d /\ s_wlog s = wl /\ s_notes s = nt /\ s_reader s = RRun /\
     s_acc s ++ concat (s_queue s) ++ drop_cr (s_pending s) = T /\
     mem_byte 27 (s_pending s) = false /\
     length (s_acc s) < lo.
@@ -164,7 +165,8 @@ Section Phase.
       repeat split; try reflexivity; try assumption.
       + rewrite <- Hst, Hsplit.
         destruct (drop_cr (firstn m pend)) as [|b1 ch] eqn:E; [reflexivity|].
-        rewrite concat_snoc. now rewrite <- !app_assoc.
+        f_equal. etransitivity; [apply f_equal2; [apply concat_snoc | reflexivity]|].
+        now rewrite <- app_assoc.
       + apply mem_byte_skipn_false, Hesc.
   Qed.
 
@@ -183,21 +185,23 @@ Section Phase.
       destruct (phase_step s e Hin He) as [Hin' | [j Hex]].
       + destruct (IH _ Hff Hin') as [Hl | (pre & post & j & s' & Hs & Hpre & Hex & Hrun)].
         * left. exact Hl.
-        * right. exists (e :: pre), post, j, s'. subst sched. repeat split; try assumption.
-      + right. exists [e], sched, j, (step feed cfg s e). repeat split; try assumption; reflexivity.
+        * right. exists (e :: pre), post, j, s'. subst sched.
+          split; [reflexivity|]. split; [exact Hpre|]. split; [exact Hex | exact Hrun].
+      + right. exists [e], sched, j, (step feed cfg s e).
+        split; [reflexivity|]. split; [reflexivity|]. split; [exact Hex | reflexivity].
   Qed.
 
   (* liveness of a phase: read everything that is pending in one chunk, then step the operation *)
   Lemma until_op_shape (s : @sys D R) :
-    s_pc s = Until c k -> s_reader s = RRun ->
+    s_pc s = Until c k h -> s_reader s = RRun ->
     s_pending (step feed cfg s Op) = s_pending s /\
     length (s_queue (step feed cfg s Op)) = pred (length (s_queue s)).
   Proof.
     intros Hpc Hr. cbn [step]. rewrite Hpc, Hr.
-    destruct (s_queue s) as [|chunk q']; [split; reflexivity|].
+    destruct (s_queue s) as [|chunk q'] eqn:Eq; [split; [reflexivity | now rewrite Eq]|].
     destruct (cond_holds cfg c (s_acc s ++ chunk)).
     - unfold set_pc. cbn [s_notes s_dev s_pending s_queue s_acc s_wlog s_reader].
-      destruct (skip_notes D R (k (s_acc s ++ chunk)) (s_notes s)). split; reflexivity.
+      destruct (skip_notes _ (k (s_acc s ++ chunk)) (s_notes s)). split; reflexivity.
     - split; reflexivity.
   Qed.
 
@@ -212,9 +216,9 @@ Section Phase.
     induction n as [|n IH]; intros s Hin Hp Hq.
     - exfalso. apply (Hne s Hin Hp). destruct (s_queue s); [reflexivity | cbn [length] in Hq; lia].
     - destruct (phase_step s Op Hin (or_introl eq_refl)) as [Hin' | [j Hex]].
-      + destruct Hin as (Hpc & _ & _ & _ & Hr & _).
+      + assert (Hqne : s_queue s <> []) by (apply Hne; assumption).
+        destruct Hin as (Hpc & _ & _ & _ & Hr & _).
         destruct (until_op_shape s Hpc Hr) as [Hp' Hq'].
-        assert (Hqne : s_queue s <> []) by (apply Hne; [|exact Hp]; unfold in_phase; tauto).
         destruct (IH (step feed cfg s Op) Hin') as (m & j & Hex).
         * rewrite Hp'. exact Hp.
         * rewrite Hq'. destruct (s_queue s); [congruence | cbn [length pred] in *; lia].
@@ -239,3 +243,837 @@ Section Phase.
     - exists [Rd (length (s_pending s))], j. split; [reflexivity | exact Hex].
   Qed.
 End Phase.
+
+(* the phase lemma in the form "start of a read-until": the remaining stream is what is queued
+   plus what is pending *)
+Lemma phase_enter (D R : Type) (cfg : chan_cfg) (c : cond) (k : bytes -> prog R) (h : err -> prog R) (lo : nat) (s : @sys D R) :
+  s_pc s = Until c k h -> s_reader s = RRun -> s_acc s = [] -> mem_byte 27 (s_pending s) = false ->
+  phase_ok cfg c (concat (s_queue s) ++ drop_cr (s_pending s)) lo = true ->
+  in_phase D R c k h (concat (s_queue s) ++ drop_cr (s_pending s)) lo (s_dev s) (s_wlog s) (s_notes s) s.
+Proof.
+  intros Hpc Hr Ha Hesc Hok. destruct (phase_ok_spec _ _ _ _ Hok) as (Hlo & _).
+  unfold in_phase. rewrite Ha. cbn [app length]. repeat split; try assumption; try reflexivity. lia.
+Qed.
+
+Theorem phase_lemma (D : Type) (feed : D -> bytes -> D * bytes) (R : Type) (cfg : chan_cfg)
+        (c : cond) (k : bytes -> prog R) (h : err -> prog R) (lo : nat) (s : @sys D R) (sched : list ev) :
+  s_pc s = Until c k h -> s_reader s = RRun -> s_acc s = [] -> mem_byte 27 (s_pending s) = false ->
+  let T := concat (s_queue s) ++ drop_cr (s_pending s) in
+  phase_ok cfg c T lo = true ->
+  fault_free sched = true ->
+  in_phase D R c k h T lo (s_dev s) (s_wlog s) (s_notes s) (run feed cfg sched s) \/
+  exists pre post j s',
+    sched = pre ++ post /\ run feed cfg pre s = s' /\
+    exited D R k T lo (s_dev s) (s_wlog s) (s_notes s) j s' /\
+    run feed cfg sched s = run feed cfg post s'.
+Proof.
+  intros Hpc Hr Ha Hesc T Hok Hff.
+  apply (phase_run D feed R cfg c k h T lo (s_dev s) (s_wlog s) (s_notes s) Hok sched s Hff).
+  apply (phase_enter D R cfg c k h lo s); assumption.
+Qed.
+
+(* ------------------------------------------------------------------------------------------ *)
+(* Deadlines and finished programs (generic; used by the timeout / failure properties)         *)
+(* ------------------------------------------------------------------------------------------ *)
+
+Section Final.
+  Variable D : Type.
+  Variable feed : D -> bytes -> D * bytes.
+  Variable R : Type.
+  Variable cfg : chan_cfg.
+
+  Definition finished (p : prog R) : Prop :=
+    match p with Ret _ | Fail _ => True | _ => False end.
+
+  (* a deadline at a read-until: the buffer is dropped and the error continuation runs *)
+  Lemma deadline_at_until (s : @sys D R) c k h :
+    s_pc s = Until c k h ->
+    step feed cfg s Deadline =
+    set_pc (mkSys (s_dev s) (s_pending s) (s_queue s) [] (h ETimeout) (s_wlog s) (s_notes s) (s_reader s))
+           (h ETimeout).
+  Proof. intros H. cbn [step]. rewrite H. reflexivity. Qed.
+
+  (* ... in particular when the continuation fails outright (every program of Channel.v passes
+     [Fail], possibly under [bind]s, which still computes to a [Fail]) *)
+  Lemma deadline_at_until_fail (s : @sys D R) c k h e :
+    s_pc s = Until c k h -> h ETimeout = Fail e ->
+    step feed cfg s Deadline =
+    mkSys (s_dev s) (s_pending s) (s_queue s) [] (Fail e) (s_wlog s) (s_notes s) (s_reader s) /\
+    outcome (step feed cfg s Deadline) = Some (inr e).
+  Proof.
+    intros H He. rewrite (deadline_at_until s c k h H), He. split; reflexivity.
+  Qed.
+
+  (* a deadline anywhere else is ignored *)
+  Lemma deadline_elsewhere (s : @sys D R) :
+    (forall c k h, s_pc s <> Until c k h) -> step feed cfg s Deadline = s.
+  Proof.
+    intros H. cbn [step]. destruct (s_pc s) as [r|e|b red k|c k h|t d k] eqn:E; try reflexivity.
+    exfalso. exact (H c k h eq_refl).
+  Qed.
+
+  (* an operation step at a finished program does nothing (consumes nothing from the queue) *)
+  Lemma op_at_ret (s : @sys D R) r : s_pc s = Ret r -> step feed cfg s Op = s.
+  Proof. intros H. cbn [step]. rewrite H. reflexivity. Qed.
+
+  Lemma op_at_fail (s : @sys D R) e : s_pc s = Fail e -> step feed cfg s Op = s.
+  Proof. intros H. cbn [step]. rewrite H. reflexivity. Qed.
+
+  Lemma op_at_finished (s : @sys D R) : finished (s_pc s) -> step feed cfg s Op = s.
+  Proof.
+    intros H. destruct (s_pc s) as [r|e|b red k|c k h|t d k] eqn:E; cbn [finished] in H; try contradiction.
+    - exact (op_at_ret s r E).
+    - exact (op_at_fail s e E).
+  Qed.
+
+  (* one step (ANY event, faults included) at a finished program: everything the operation owns
+     is frozen; the queue can only grow (by reader steps) *)
+  Lemma finished_step (s : @sys D R) (e : ev) :
+    finished (s_pc s) ->
+    s_pc (step feed cfg s e) = s_pc s /\ s_dev (step feed cfg s e) = s_dev s /\
+    s_wlog (step feed cfg s e) = s_wlog s /\ s_notes (step feed cfg s e) = s_notes s /\
+    s_acc (step feed cfg s e) = s_acc s /\
+    exists q', s_queue (step feed cfg s e) = s_queue s ++ q'.
+  Proof.
+    intros H.
+    assert (Hnil : exists q' : list bytes, s_queue s = s_queue s ++ q') by (exists []; now rewrite app_nil_r).
+    destruct e as [n| | | |].
+    - cbn [step]. destruct (s_reader s); try (repeat split; try reflexivity; exact Hnil).
+      destruct (s_pending s) as [|b0 p0]; [repeat split; try reflexivity; exact Hnil|].
+      cbn [s_pc s_dev s_wlog s_notes s_acc s_queue]. repeat split; try reflexivity.
+      destruct (normalize_chunk (firstn (Nat.max 1 n) (b0 :: p0))) as [|b1 ch]; [exact Hnil|].
+      eexists. reflexivity.
+    - rewrite (op_at_finished s H). repeat split; try reflexivity; exact Hnil.
+    - cbn [step]. destruct (s_pc s) as [r|e|b red k|c k h|t d k] eqn:E; cbn [finished] in H; try contradiction;
+        (repeat split; try reflexivity; try exact E; exact Hnil).
+    - cbn [step s_pc s_dev s_wlog s_notes s_acc s_queue]. repeat split; try reflexivity; exact Hnil.
+    - cbn [step]. destruct (s_reader s); cbn [s_pc s_dev s_wlog s_notes s_acc s_queue];
+        (repeat split; try reflexivity; exact Hnil).
+  Qed.
+
+  Lemma finished_run (sched : list ev) : forall s : @sys D R,
+    finished (s_pc s) ->
+    s_pc (run feed cfg sched s) = s_pc s /\ s_dev (run feed cfg sched s) = s_dev s /\
+    s_wlog (run feed cfg sched s) = s_wlog s /\ s_notes (run feed cfg sched s) = s_notes s /\
+    s_acc (run feed cfg sched s) = s_acc s /\
+    exists q', s_queue (run feed cfg sched s) = s_queue s ++ q'.
+  Proof.
+    induction sched as [|e sched IH]; intros s H.
+    - repeat split; try reflexivity. exists []. now rewrite app_nil_r.
+    - destruct (finished_step s e H) as (Hpc & Hd & Hw & Hn & Ha & q1 & Hq).
+      assert (H' : finished (s_pc (step feed cfg s e))) by (rewrite Hpc; exact H).
+      destruct (IH _ H') as (Hpc' & Hd' & Hw' & Hn' & Ha' & q2 & Hq').
+      change (run feed cfg (e :: sched) s) with (run feed cfg sched (step feed cfg s e)).
+      rewrite Hpc', Hd', Hw', Hn', Ha', Hq', Hpc, Hd, Hw, Hn, Ha, Hq.
+      repeat split; try reflexivity. exists (q1 ++ q2). now rewrite app_assoc.
+  Qed.
+
+  (* a failed operation stays failed with the same error, whatever happens next.  (The schedule
+     hypothesis is not needed — it holds for Eof / Ioerr events too, see [finished_run] — but is
+     kept in the form the properties state it.) *)
+  Theorem failed_is_final (s : @sys D R) (e : err) (sched : list ev) :
+    s_pc s = Fail e ->
+    (forall x, In x sched -> x = Op \/ x = Deadline \/ exists n, x = Rd n) ->
+    s_pc (run feed cfg sched s) = Fail e /\
+    outcome (run feed cfg sched s) = Some (inr e) /\
+    s_wlog (run feed cfg sched s) = s_wlog s /\ s_notes (run feed cfg sched s) = s_notes s /\
+    exists q', s_queue (run feed cfg sched s) = s_queue s ++ q'.
+  Proof.
+    intros H _.
+    assert (Hf : finished (s_pc s)) by (rewrite H; exact I).
+    destruct (finished_run sched s Hf) as (Hpc & _ & Hw & Hn & _ & Hq).
+    rewrite H in Hpc. unfold outcome. rewrite Hpc. repeat split; assumption.
+  Qed.
+
+  Theorem returned_is_final (s : @sys D R) (r : R) (sched : list ev) :
+    s_pc s = Ret r ->
+    s_pc (run feed cfg sched s) = Ret r /\ outcome (run feed cfg sched s) = Some (inl r).
+  Proof.
+    intros H.
+    assert (Hf : finished (s_pc s)) by (rewrite H; exact I).
+    destruct (finished_run sched s Hf) as (Hpc & _).
+    rewrite H in Hpc. unfold outcome. rewrite Hpc. split; reflexivity.
+  Qed.
+End Final.
+
+(* ------------------------------------------------------------------------------------------ *)
+(* PART 2 — sessions                                                                           *)
+(* ------------------------------------------------------------------------------------------ *)
+
+(* ---------- the session program, unfolded to its explicit Write/Until chain ---------- *)
+
+Definition Fk (r : bytes) : list bytes -> prog (list bytes) := fun rs => Ret (r :: rs).
+Definition Hk (cfg : chan_cfg) (o : op_opts) (rest : list bytes) : bytes -> prog (list bytes) :=
+  fun r => Note TAG_RESULT r (bind (send_commands_prog cfg o rest) (Fk r)).
+(* [wrapl [f1; f2; ...] p = bind (bind (bind p f1) f2) ...]: the pending continuations of the
+   enclosing SendCommands frames, innermost first (no functional extensionality needed) *)
+Definition wrapl (fs : list (list bytes -> prog (list bytes))) (p : prog (list bytes)) : prog (list bytes) :=
+  fold_left (fun p f => bind p f) fs p.
+Definition K2 (cfg : chan_cfg) (o : op_opts) : bytes -> prog bytes :=
+  fun nb => Ret (process_out cfg nb (o_strip o)).
+Definition K1 (cfg : chan_cfg) (o : op_opts) : bytes -> prog bytes :=
+  fun _ => Write (c_ret cfg) false (Until (prompt_cond cfg o) (K2 cfg o) Fail).
+
+Definition skips (o : op_opts) (c : bytes) : bool :=
+  match c, o_exact o with [], false => true | _, _ => false end.
+
+Lemma scp_cons (cfg : chan_cfg) (o : op_opts) (c : bytes) (rest : list bytes) :
+  send_commands_prog cfg o (c :: rest) = bind (send_input cfg c o) (Hk cfg o rest).
+Proof. reflexivity. Qed.
+
+Lemma send_input_eq (cfg : chan_cfg) (o : op_opts) (c : bytes) :
+  o_eager o = false -> send_input cfg c o = Write c false (until_echo o c (K1 cfg o)).
+Proof. destruct o as [st ea ex im co]. cbn [o_eager]. intros ->. reflexivity. Qed.
+
+Lemma until_echo_skip {R} (o : op_opts) (c : bytes) (k : bytes -> prog R) :
+  skips o c = true -> until_echo o c k = k [].
+Proof. unfold skips, until_echo. destruct c, (o_exact o); intros H; try discriminate; reflexivity. Qed.
+
+Lemma until_echo_noskip {R} (o : op_opts) (c : bytes) (k : bytes -> prog R) :
+  skips o c = false -> until_echo o c k = Until (echo_cond o c) k Fail.
+Proof. unfold skips, until_echo. destruct c, (o_exact o); intros H; try discriminate; reflexivity. Qed.
+
+Lemma wrapl_write fs b r k : wrapl fs (Write b r k) = Write b r (wrapl fs k).
+Proof.
+  revert k. induction fs as [|f fs IH]; intros k; [reflexivity|].
+  change (wrapl fs (Write b r (bind k f)) = Write b r (wrapl fs (bind k f))). apply IH.
+Qed.
+
+Lemma wrapl_note fs t d k : wrapl fs (Note t d k) = Note t d (wrapl fs k).
+Proof.
+  revert k. induction fs as [|f fs IH]; intros k; [reflexivity|].
+  change (wrapl fs (Note t d (bind k f)) = Note t d (wrapl fs (bind k f))). apply IH.
+Qed.
+
+Lemma wrapl_until fs c (k : bytes -> prog (list bytes)) (h : err -> prog (list bytes)) :
+  wrapl fs (Until c k h) = Until c (fun rb => wrapl fs (k rb)) (fun e => wrapl fs (h e)).
+Proof.
+  revert k h. induction fs as [|f fs IH]; intros k h; [reflexivity|].
+  change (wrapl fs (Until c (fun rb => bind (k rb) f) (fun e => bind (h e) f))
+          = Until c (fun rb => wrapl fs (bind (k rb) f)) (fun e => wrapl fs (bind (h e) f))).
+  apply (IH (fun rb => bind (k rb) f) (fun e => bind (h e) f)).
+Qed.
+
+(* the error continuation of both read-untils of an exchange, seen through the enclosing frames *)
+Definition Hfail (cfg : chan_cfg) (o : op_opts) (fs : list (list bytes -> prog (list bytes))) (rest : list bytes)
+  : err -> prog (list bytes) :=
+  fun e => wrapl fs (bind (Fail e) (Hk cfg o rest)).
+
+Lemma wrapl_ret rr l : wrapl (map Fk rr) (Ret l) = Ret (rev rr ++ l).
+Proof.
+  revert l. induction rr as [|r rr IH]; intros l; [reflexivity|].
+  change (wrapl (map Fk rr) (Ret (r :: l)) = Ret (rev (r :: rr) ++ l)).
+  rewrite IH. cbn [rev]. now rewrite <- app_assoc.
+Qed.
+
+Lemma pc_cmd cfg o fs c rest :
+  o_eager o = false ->
+  wrapl fs (send_commands_prog cfg o (c :: rest)) =
+  Write c false (wrapl fs (bind (until_echo o c (K1 cfg o)) (Hk cfg o rest))).
+Proof.
+  intros He. rewrite scp_cons, (send_input_eq cfg o c He).
+  change (bind (Write c false (until_echo o c (K1 cfg o))) (Hk cfg o rest))
+    with (Write c false (bind (until_echo o c (K1 cfg o)) (Hk cfg o rest))).
+  apply wrapl_write.
+Qed.
+
+Lemma pc_ret cfg o fs rest buf :
+  wrapl fs (bind (K1 cfg o buf) (Hk cfg o rest)) =
+  Write (c_ret cfg) false
+        (Until (prompt_cond cfg o) (fun nb => wrapl fs (bind (K2 cfg o nb) (Hk cfg o rest)))
+               (Hfail cfg o fs rest)).
+Proof.
+  change (bind (K1 cfg o buf) (Hk cfg o rest))
+    with (Write (c_ret cfg) false (Until (prompt_cond cfg o) (fun nb => bind (K2 cfg o nb) (Hk cfg o rest))
+                                         (fun e => bind (Fail e) (Hk cfg o rest)))).
+  rewrite wrapl_write, wrapl_until. reflexivity.
+Qed.
+
+Lemma pc_res cfg o fs rest nb :
+  wrapl fs (bind (K2 cfg o nb) (Hk cfg o rest)) =
+  Note TAG_RESULT (process_out cfg nb (o_strip o))
+       (wrapl (Fk (process_out cfg nb (o_strip o)) :: fs) (send_commands_prog cfg o rest)).
+Proof.
+  change (bind (K2 cfg o nb) (Hk cfg o rest))
+    with (Note TAG_RESULT (process_out cfg nb (o_strip o))
+               (bind (send_commands_prog cfg o rest) (Fk (process_out cfg nb (o_strip o))))).
+  rewrite wrapl_note. reflexivity.
+Qed.
+
+(* ---------- interpreter helpers on explicit states ---------- *)
+
+Definition not_note {R} (p : prog R) : Prop := match p with Note _ _ _ => False | _ => True end.
+
+Lemma set_pc_id {D R} (d : D) pe q a (pc0 p : prog R) wl nt r :
+  not_note p -> set_pc (mkSys d pe q a pc0 wl nt r) p = mkSys d pe q a p wl nt r.
+Proof. destruct p; cbn [not_note]; intros H; try reflexivity. contradiction. Qed.
+
+Lemma set_pc_note {D R} (d : D) pe q a (pc0 : prog R) wl nt r t dd k :
+  set_pc (mkSys d pe q a pc0 wl nt r) (Note t dd k) = set_pc (mkSys d pe q a pc0 wl (nt ++ [(t, dd)]) r) k.
+Proof. reflexivity. Qed.
+
+Lemma step_op_write {D R} (feed : D -> bytes -> D * bytes) cfg (s : @sys D R) b red k :
+  s_pc s = Write b red k ->
+  step feed cfg s Op =
+  let '(d', out) := feed (s_dev s) b in
+  set_pc (mkSys d' (s_pending s ++ out) (s_queue s) (s_acc s) k (s_wlog s ++ [(b, red)]) (s_notes s) (s_reader s)) k.
+Proof. intros H. cbn [step]. rewrite H. reflexivity. Qed.
+
+(* a reader step on an explicit running state: the normalised stream is unchanged *)
+Lemma step_rd {D R} (feed : D -> bytes -> D * bytes) cfg (d : D) p q a (pc : prog R) wl nt n :
+  mem_byte 27 p = false ->
+  exists p' q',
+    step feed cfg (mkSys d p q a pc wl nt RRun) (Rd n) = mkSys d p' q' a pc wl nt RRun /\
+    concat q' ++ drop_cr p' = concat q ++ drop_cr p /\ mem_byte 27 p' = false.
+Proof.
+  intros Hesc. cbn [step s_reader s_pending].
+  destruct p as [|b0 p0]; [exists [], q; repeat split; reflexivity|].
+  set (p := b0 :: p0) in *. set (m := Nat.max 1 n).
+  cbn [s_dev s_queue s_acc s_pc s_wlog s_notes s_reader].
+  rewrite (normalize_chunk_noesc (firstn m p)) by (apply mem_byte_firstn_false, Hesc).
+  eexists _, _. split; [reflexivity|]. split; [|apply mem_byte_skipn_false, Hesc].
+  rewrite <- (firstn_skipn m p) at 3. rewrite drop_cr_app.
+  destruct (drop_cr (firstn m p)) as [|b1 ch] eqn:E; [reflexivity|].
+  rewrite app_assoc. f_equal. apply concat_snoc.
+Qed.
+
+Lemma beqb_eq (a b : bytes) : beqb a b = true -> a = b.
+Proof.
+  revert b. induction a as [|x a IH]; intros [|y b] H; cbn [beqb] in H; try discriminate; [reflexivity|].
+  apply andb_true_iff in H. destruct H as [H1 H2]. apply N.eqb_eq in H1. subst y. f_equal. now apply IH.
+Qed.
+
+(* ---------- the hypotheses, unpacked ---------- *)
+
+Definition lo_set (x : exchange) : list bytes := leftovers (drop_cr (x_resp x)) (x_resp_lo x).
+
+Lemma exchange_ok_spec cfg o stales x :
+  exchange_ok cfg o stales x = true ->
+  (forall st, In st stales ->
+     if skips o (x_cmd x) then st ++ drop_cr (x_echo x) = []
+     else phase_ok cfg (echo_cond o (x_cmd x)) (st ++ drop_cr (x_echo x)) (length (st ++ drop_cr (x_echo x))) = true) /\
+  phase_ok cfg (prompt_cond cfg o) (drop_cr (x_resp x)) (x_resp_lo x) = true /\
+  (forall j, x_resp_lo x <= j <= length (drop_cr (x_resp x)) ->
+     process_out cfg (firstn j (drop_cr (x_resp x))) (o_strip o) = x_result x) /\
+  mem_byte 27 (x_echo x) = false /\ mem_byte 27 (x_resp x) = false /\ o_eager o = false.
+Proof.
+  unfold exchange_ok. intros H.
+  apply andb_true_iff in H. destruct H as [H Heager].
+  apply andb_true_iff in H. destruct H as [H Hesc2].
+  apply andb_true_iff in H. destruct H as [H Hesc1].
+  apply andb_true_iff in H. destruct H as [Hecho H].
+  apply andb_true_iff in H. destruct H as [Hresp Hres].
+  apply negb_true_iff in Heager, Hesc1, Hesc2.
+  rewrite forallb_forall in Hecho, Hres.
+  repeat split; try assumption.
+  - intros st Hin. specialize (Hecho st Hin). cbv zeta in Hecho. unfold skips.
+    destruct (x_cmd x) as [|c0 cs]; destruct (o_exact o); try exact Hecho.
+    destruct (st ++ drop_cr (x_echo x)); [reflexivity | discriminate].
+  - intros j Hj. apply beqb_eq. apply Hres. rewrite in_seq. lia.
+Qed.
+
+Lemma session_ok_cons cfg o stales x rest :
+  session_ok cfg o stales (x :: rest) = true ->
+  exchange_ok cfg o stales x = true /\ session_ok cfg o (lo_set x) rest = true.
+Proof. cbn [session_ok]. intros H. apply andb_true_iff in H. exact H. Qed.
+
+Lemma in_leftovers (T : bytes) (lo j : nat) : lo <= j <= length T -> In (skipn j T) (leftovers T lo).
+Proof. intros H. unfold leftovers. apply in_map_iff. exists j. split; [reflexivity|]. rewrite in_seq. lia. Qed.
+
+(* ---------- expected writes / notes bookkeeping ---------- *)
+
+Definition ewx (cfg : chan_cfg) (xs : list exchange) : list (bytes * bool) :=
+  expected_writes cfg (map x_cmd xs).
+Definition notes_of (xs : list exchange) : list (N * bytes) :=
+  map (fun x => (TAG_RESULT, x_result x)) xs.
+Definition fs_of (xs : list exchange) : list (list bytes -> prog (list bytes)) :=
+  map Fk (rev (map x_result xs)).
+
+Lemma ewx_app cfg a b : ewx cfg (a ++ b) = ewx cfg a ++ ewx cfg b.
+Proof. unfold ewx, expected_writes. rewrite map_app. apply flat_map_app. Qed.
+
+Lemma ewx_cons cfg x b : ewx cfg (x :: b) = (x_cmd x, false) :: (c_ret cfg, false) :: ewx cfg b.
+Proof. reflexivity. Qed.
+
+Lemma ewx_length cfg a : length (ewx cfg a) = 2 * length a.
+Proof. induction a as [|x a IH]; [reflexivity|]. rewrite ewx_cons. cbn [length]. rewrite IH. lia. Qed.
+
+Lemma ewx_firstn cfg xs1 x xs2 (i : nat) :
+  firstn (2 * length xs1 + i) (ewx cfg (xs1 ++ x :: xs2)) =
+  ewx cfg xs1 ++ firstn i ((x_cmd x, false) :: (c_ret cfg, false) :: ewx cfg xs2).
+Proof.
+  rewrite ewx_app, ewx_cons. rewrite <- (ewx_length cfg xs1). apply firstn_app_2.
+Qed.
+
+Lemma notes_of_snoc xs1 x : notes_of (xs1 ++ [x]) = notes_of xs1 ++ [(TAG_RESULT, x_result x)].
+Proof. unfold notes_of. now rewrite map_app. Qed.
+
+Lemma fs_of_snoc xs1 x : fs_of (xs1 ++ [x]) = Fk (x_result x) :: fs_of xs1.
+Proof. unfold fs_of. rewrite map_app. cbn [map]. rewrite rev_unit. reflexivity. Qed.
+
+Lemma wrapl_fs_ret xs1 : wrapl (fs_of xs1) (Ret []) = Ret (map x_result xs1).
+Proof. unfold fs_of. rewrite wrapl_ret, rev_involutive. now rewrite app_nil_r. Qed.
+
+Lemma cons_app_assoc {A} (a : list A) (x : A) (b : list A) : a ++ x :: b = (a ++ [x]) ++ b.
+Proof. now rewrite <- app_assoc. Qed.
+
+(* ---------- where the session is ---------- *)
+
+Section Sess.
+  Variable cfg : chan_cfg.
+  Variable o : op_opts.
+  Variable xs : list exchange.
+
+  Notation ssys := (@sys script (list bytes)).
+
+  (* [at_point m s]: [s] is a reachable session state; [m] counts the sub-phases still to go
+     (4 per exchange: write command, echo read, write return, response read) *)
+  Inductive at_point : nat -> ssys -> Prop :=
+  | AtCmd : forall xs1 x xs2 stales p q,
+      xs = xs1 ++ x :: xs2 ->
+      exchange_ok cfg o stales x = true ->
+      session_ok cfg o (lo_set x) xs2 = true ->
+      In (concat q ++ drop_cr p) stales ->
+      mem_byte 27 p = false ->
+      at_point (4 * length xs2 + 4)
+        (@mkSys script (list bytes) (bursts_of (x :: xs2)) p q []
+               (wrapl (fs_of xs1) (send_commands_prog cfg o (map x_cmd (x :: xs2))))
+               (ewx cfg xs1) (notes_of xs1) RRun)
+  | AtEcho : forall xs1 x xs2 stales st s,
+      xs = xs1 ++ x :: xs2 ->
+      exchange_ok cfg o stales x = true ->
+      session_ok cfg o (lo_set x) xs2 = true ->
+      In st stales ->
+      skips o (x_cmd x) = false ->
+      in_phase script (list bytes) (echo_cond o (x_cmd x))
+               (fun rb => wrapl (fs_of xs1) (bind (K1 cfg o rb) (Hk cfg o (map x_cmd xs2))))
+               (Hfail cfg o (fs_of xs1) (map x_cmd xs2))
+               (st ++ drop_cr (x_echo x)) (length (st ++ drop_cr (x_echo x)))
+               (x_resp x :: bursts_of xs2)
+               (ewx cfg xs1 ++ [(x_cmd x, false)]) (notes_of xs1) s ->
+      at_point (4 * length xs2 + 3) s
+  | AtRet : forall xs1 x xs2 stales p q buf,
+      xs = xs1 ++ x :: xs2 ->
+      exchange_ok cfg o stales x = true ->
+      session_ok cfg o (lo_set x) xs2 = true ->
+      concat q ++ drop_cr p = [] ->
+      mem_byte 27 p = false ->
+      at_point (4 * length xs2 + 2)
+        (@mkSys script (list bytes) (x_resp x :: bursts_of xs2) p q []
+               (wrapl (fs_of xs1) (bind (K1 cfg o buf) (Hk cfg o (map x_cmd xs2))))
+               (ewx cfg xs1 ++ [(x_cmd x, false)]) (notes_of xs1) RRun)
+  | AtResp : forall xs1 x xs2 stales s,
+      xs = xs1 ++ x :: xs2 ->
+      exchange_ok cfg o stales x = true ->
+      session_ok cfg o (lo_set x) xs2 = true ->
+      in_phase script (list bytes) (prompt_cond cfg o)
+               (fun nb => wrapl (fs_of xs1) (bind (K2 cfg o nb) (Hk cfg o (map x_cmd xs2))))
+               (Hfail cfg o (fs_of xs1) (map x_cmd xs2))
+               (drop_cr (x_resp x)) (x_resp_lo x)
+               (bursts_of xs2)
+               (ewx cfg xs1 ++ [(x_cmd x, false); (c_ret cfg, false)]) (notes_of xs1) s ->
+      at_point (4 * length xs2 + 1) s
+  | AtDone : forall p q,
+      at_point 0 (@mkSys script (list bytes) [] p q [] (Ret (map x_result xs)) (ewx cfg xs) (notes_of xs) RRun).
+
+  (* entering exchange number |xs1| (or finishing, when nothing is left) *)
+  Lemma enter_next xs1 xs2 stales p q :
+    xs = xs1 ++ xs2 ->
+    session_ok cfg o stales xs2 = true ->
+    (xs2 <> [] -> o_eager o = false) ->
+    In (concat q ++ drop_cr p) stales ->
+    mem_byte 27 p = false ->
+    at_point (4 * length xs2)
+      (set_pc (mkSys (bursts_of xs2) p q []
+                     (wrapl (fs_of xs1) (send_commands_prog cfg o (map x_cmd xs2)))
+                     (ewx cfg xs1) (notes_of xs1) RRun)
+              (wrapl (fs_of xs1) (send_commands_prog cfg o (map x_cmd xs2)))).
+  Proof.
+    intros Hxs Hss Hea Hin Hesc. destruct xs2 as [|x xs2].
+    - rewrite app_nil_r in Hxs. subst xs1.
+      cbn [map send_commands_prog bursts_of flat_map length Nat.mul].
+      rewrite wrapl_fs_ret. rewrite set_pc_id by exact I. apply AtDone.
+    - apply session_ok_cons in Hss. destruct Hss as [Hex Hss].
+      rewrite set_pc_id by (cbn [map]; rewrite pc_cmd by (apply Hea; discriminate); exact I).
+      replace (4 * length (x :: xs2)) with (4 * length xs2 + 4) by (cbn [length]; lia).
+      apply (AtCmd xs1 x xs2 stales p q); assumption.
+  Qed.
+
+  (* the echo read-until returns: everything was consumed *)
+  Lemma exit_echo xs1 x xs2 stales st j s' :
+    xs = xs1 ++ x :: xs2 ->
+    exchange_ok cfg o stales x = true ->
+    session_ok cfg o (lo_set x) xs2 = true ->
+    exited script (list bytes)
+           (fun rb => wrapl (fs_of xs1) (bind (K1 cfg o rb) (Hk cfg o (map x_cmd xs2))))
+           (st ++ drop_cr (x_echo x)) (length (st ++ drop_cr (x_echo x)))
+           (x_resp x :: bursts_of xs2)
+           (ewx cfg xs1 ++ [(x_cmd x, false)]) (notes_of xs1) j s' ->
+    at_point (4 * length xs2 + 2) s'.
+  Proof.
+    intros Hxs Hex Hss (Hj & p & q & Hs & Hst & Hesc). subst s'.
+    rewrite set_pc_id by (rewrite pc_ret; exact I).
+    apply (AtRet xs1 x xs2 stales p q _ Hxs Hex Hss); [|exact Hesc].
+    rewrite Hst. apply skipn_all2. lia.
+  Qed.
+
+  (* the response read-until returns: the result is the specified one; next exchange or done *)
+  Lemma exit_resp xs1 x xs2 stales j s' :
+    xs = xs1 ++ x :: xs2 ->
+    exchange_ok cfg o stales x = true ->
+    session_ok cfg o (lo_set x) xs2 = true ->
+    exited script (list bytes)
+           (fun nb => wrapl (fs_of xs1) (bind (K2 cfg o nb) (Hk cfg o (map x_cmd xs2))))
+           (drop_cr (x_resp x)) (x_resp_lo x)
+           (bursts_of xs2)
+           (ewx cfg xs1 ++ [(x_cmd x, false); (c_ret cfg, false)]) (notes_of xs1) j s' ->
+    at_point (4 * length xs2) s'.
+  Proof.
+    intros Hxs Hex Hss (Hj & p & q & Hs & Hst & Hesc). subst s'.
+    destruct (exchange_ok_spec _ _ _ _ Hex) as (_ & _ & Hres & _ & _ & Hea).
+    rewrite pc_res. rewrite (Hres j Hj). rewrite set_pc_note.
+    rewrite <- fs_of_snoc, <- notes_of_snoc.
+    replace (ewx cfg xs1 ++ [(x_cmd x, false); (c_ret cfg, false)]) with (ewx cfg (xs1 ++ [x]))
+      by (rewrite ewx_app; reflexivity).
+    apply (enter_next (xs1 ++ [x]) xs2 (lo_set x) p q).
+    - rewrite Hxs. apply cons_app_assoc.
+    - exact Hss.
+    - intros _. exact Hea.
+    - rewrite Hst. apply in_leftovers. exact Hj.
+    - exact Hesc.
+  Qed.
+End Sess.
+
+Section SessStep.
+  Variable cfg : chan_cfg.
+  Variable o : op_opts.
+  Variable xs : list exchange.
+
+  Notation ssys := (@sys script (list bytes)).
+
+  (* one fault-free step preserves [at_point]; the count never increases, and an operation step at
+     a write point (even, non-zero count) strictly decreases it *)
+  Lemma at_point_step (m : nat) (s : ssys) (e : ev) :
+    at_point cfg o xs m s -> (e = Op \/ exists n, e = Rd n) ->
+    exists m', m' <= m /\ at_point cfg o xs m' (step sfeed cfg s e) /\
+               (e = Op -> (exists n, m = 2 * n + 2) -> m' < m).
+  Proof.
+    intros Hat He. destruct Hat as
+        [xs1 x xs2 stales p q Hxs Hex Hss Hin Hesc
+        |xs1 x xs2 stales st s Hxs Hex Hss Hin Hsk Hph
+        |xs1 x xs2 stales p q buf Hxs Hex Hss Hst Hesc
+        |xs1 x xs2 stales s Hxs Hex Hss Hph
+        |p q].
+    - (* about to write the command *)
+      destruct (exchange_ok_spec _ _ _ _ Hex) as (Hecho & _ & _ & Hesc1 & _ & Hea).
+      destruct He as [He | [n He]]; subst e.
+      + erewrite step_op_write by (cbn [s_pc map]; apply (pc_cmd cfg o (fs_of xs1) (x_cmd x) (map x_cmd xs2) Hea)).
+        cbn [s_dev s_pending s_queue s_acc s_wlog s_notes s_reader bursts_of flat_map app sfeed].
+        fold (bursts_of xs2).
+        assert (Hstream : concat q ++ drop_cr (p ++ x_echo x) = (concat q ++ drop_cr p) ++ drop_cr (x_echo x))
+          by (rewrite drop_cr_app; now rewrite app_assoc).
+        assert (Hesc' : mem_byte 27 (p ++ x_echo x) = false)
+          by (rewrite mem_byte_app, Hesc, Hesc1; reflexivity).
+        specialize (Hecho _ Hin).
+        destruct (skips o (x_cmd x)) eqn:Hsk.
+        * rewrite (until_echo_skip o (x_cmd x) (K1 cfg o) Hsk).
+          rewrite set_pc_id by (rewrite pc_ret; exact I).
+          exists (4 * length xs2 + 2). split; [lia|]. split; [|intros _ _; lia].
+          apply (AtRet cfg o xs xs1 x xs2 stales _ _ [] Hxs Hex Hss); [|exact Hesc'].
+          rewrite Hstream. exact Hecho.
+        * rewrite (until_echo_noskip o (x_cmd x) (K1 cfg o) Hsk).
+          change (bind (Until (echo_cond o (x_cmd x)) (K1 cfg o) Fail) (Hk cfg o (map x_cmd xs2)))
+            with (Until (echo_cond o (x_cmd x)) (fun rb => bind (K1 cfg o rb) (Hk cfg o (map x_cmd xs2)))
+                        (fun e => bind (Fail e) (Hk cfg o (map x_cmd xs2)))).
+          rewrite wrapl_until. rewrite set_pc_id by exact I.
+          exists (4 * length xs2 + 3). split; [lia|]. split; [|intros _ _; lia].
+          apply (AtEcho cfg o xs xs1 x xs2 stales (concat q ++ drop_cr p) _ Hxs Hex Hss Hin Hsk).
+          destruct (phase_ok_spec _ _ _ _ Hecho) as (Hlo & _).
+          unfold in_phase. cbn [s_pc s_dev s_wlog s_notes s_reader s_acc s_queue s_pending app length].
+          repeat split; try reflexivity; try assumption; lia.
+      + match goal with |- context [step sfeed cfg (mkSys ?d0 p q ?a0 ?pc0 ?wl0 ?nt0 RRun) (Rd n)] =>
+          destruct (@step_rd script (list bytes) sfeed cfg d0 p q a0 pc0 wl0 nt0 n Hesc) as (p' & q' & Hs & Hst' & Hesc')
+        end.
+        rewrite Hs. exists (4 * length xs2 + 4). split; [lia|]. split; [|intros Hc; discriminate].
+        apply (AtCmd cfg o xs xs1 x xs2 stales p' q' Hxs Hex Hss); [|exact Hesc'].
+        rewrite Hst'. exact Hin.
+    - (* echo phase *)
+      destruct (exchange_ok_spec _ _ _ _ Hex) as (Hecho & _).
+      specialize (Hecho _ Hin). rewrite Hsk in Hecho.
+      destruct (phase_step _ sfeed _ cfg _ _ _ _ _ _ _ _ Hecho s e Hph He) as [Hph' | [j Hexit]].
+      + exists (4 * length xs2 + 3). split; [lia|]. split; [|intros _ [n Hn]; lia].
+        apply (AtEcho cfg o xs xs1 x xs2 stales st _ Hxs Hex Hss Hin Hsk Hph').
+      + exists (4 * length xs2 + 2). split; [lia|]. split; [|intros _ [n Hn]; lia].
+        apply (exit_echo cfg o xs xs1 x xs2 stales st j _ Hxs Hex Hss Hexit).
+    - (* about to write the return *)
+      destruct (exchange_ok_spec _ _ _ _ Hex) as (_ & Hresp & _ & _ & Hesc2 & _).
+      destruct He as [He | [n He]]; subst e.
+      + erewrite step_op_write by (cbn [s_pc]; apply (pc_ret cfg o (fs_of xs1) (map x_cmd xs2) buf)).
+        cbn [s_dev s_pending s_queue s_acc s_wlog s_notes s_reader sfeed].
+        rewrite set_pc_id by exact I.
+        exists (4 * length xs2 + 1). split; [lia|]. split; [|intros _ _; lia].
+        apply (AtResp cfg o xs xs1 x xs2 stales _ Hxs Hex Hss).
+        destruct (phase_ok_spec _ _ _ _ Hresp) as (Hlo & _).
+        unfold in_phase. cbn [s_pc s_dev s_wlog s_notes s_reader s_acc s_queue s_pending app length].
+        repeat split; try reflexivity.
+        * now rewrite <- app_assoc.
+        * rewrite drop_cr_app, app_assoc, Hst. reflexivity.
+        * rewrite mem_byte_app, Hesc, Hesc2. reflexivity.
+        * lia.
+      + match goal with |- context [step sfeed cfg (mkSys ?d0 p q ?a0 ?pc0 ?wl0 ?nt0 RRun) (Rd n)] =>
+          destruct (@step_rd script (list bytes) sfeed cfg d0 p q a0 pc0 wl0 nt0 n Hesc) as (p' & q' & Hs & Hst' & Hesc')
+        end.
+        rewrite Hs. exists (4 * length xs2 + 2). split; [lia|]. split; [|intros Hc; discriminate].
+        apply (AtRet cfg o xs xs1 x xs2 stales p' q' buf Hxs Hex Hss); [|exact Hesc'].
+        rewrite Hst'. exact Hst.
+    - (* response phase *)
+      destruct (exchange_ok_spec _ _ _ _ Hex) as (_ & Hresp & _).
+      destruct (phase_step _ sfeed _ cfg _ _ _ _ _ _ _ _ Hresp s e Hph He) as [Hph' | [j Hexit]].
+      + exists (4 * length xs2 + 1). split; [lia|]. split; [|intros _ [n Hn]; lia].
+        apply (AtResp cfg o xs xs1 x xs2 stales _ Hxs Hex Hss Hph').
+      + exists (4 * length xs2). split; [lia|]. split; [|intros _ [n Hn]; lia].
+        apply (exit_resp cfg o xs xs1 x xs2 stales j _ Hxs Hex Hss Hexit).
+    - (* finished *)
+      exists 0. split; [lia|]. split; [|intros _ [n Hn]; lia].
+      destruct He as [He | [n He]]; subst e.
+      + cbn [step s_pc]. apply AtDone.
+      + cbn [step s_reader s_pending].
+        destruct p as [|b0 p0]; [apply AtDone|]. apply AtDone.
+  Qed.
+End SessStep.
+
+Section SessMain.
+  Variable cfg : chan_cfg.
+  Variable o : op_opts.
+  Variable xs : list exchange.
+
+  Notation ssys := (@sys script (list bytes)).
+
+  Lemma at_point_run (sched : list ev) : forall (m : nat) (s : ssys),
+    fault_free sched = true -> at_point cfg o xs m s ->
+    exists m', m' <= m /\ at_point cfg o xs m' (run sfeed cfg sched s).
+  Proof.
+    induction sched as [|e sched IH]; intros m s Hff Hat.
+    - exists m. split; [lia | exact Hat].
+    - apply fault_free_cons in Hff. destruct Hff as [He Hff].
+      destruct (at_point_step cfg o xs m s e Hat He) as (m1 & Hle1 & Hat1 & _).
+      destruct (IH m1 _ Hff Hat1) as (m2 & Hle2 & Hat2).
+      exists m2. split; [lia | exact Hat2].
+  Qed.
+
+  (* what [at_point] says about the observable part of the state *)
+  Lemma at_point_safe (m : nat) (s : ssys) :
+    at_point cfg o xs m s ->
+    exists k w, k <= length xs /\ 2 * k <= w <= 2 * k + 2 /\ w <= 2 * length xs /\
+      s_notes s = map (fun x => (TAG_RESULT, x_result x)) (firstn k xs) /\
+      s_wlog s = firstn w (expected_writes cfg (map x_cmd xs)) /\
+      (forall e, outcome s <> Some (inr e)) /\
+      (forall r, outcome s = Some (inl r) -> k = length xs /\ r = map x_result xs).
+  Proof.
+    intros Hat. destruct Hat as
+        [xs1 x xs2 stales p q Hxs Hex Hss Hin Hesc
+        |xs1 x xs2 stales st s Hxs Hex Hss Hin Hsk Hph
+        |xs1 x xs2 stales p q buf Hxs Hex Hss Hst Hesc
+        |xs1 x xs2 stales s Hxs Hex Hss Hph
+        |p q].
+    - destruct (exchange_ok_spec _ _ _ _ Hex) as (_ & _ & _ & _ & _ & Hea).
+      exists (length xs1), (2 * length xs1 + 0).
+      assert (Hlen : length xs = length xs1 + S (length xs2)) by (rewrite Hxs, app_length; reflexivity).
+      split; [lia|]. split; [lia|]. split; [lia|].
+      cbn [s_notes s_wlog]. fold (ewx cfg xs). rewrite Hxs at 1 2. rewrite firstn_len_app, ewx_firstn.
+      split; [reflexivity|]. split; [cbn [firstn]; now rewrite app_nil_r|].
+      unfold outcome. cbn [s_pc map]. rewrite (pc_cmd cfg o _ _ _ Hea). split; intros; discriminate.
+    - destruct Hph as (Hpc & _ & Hw & Hn & _).
+      exists (length xs1), (2 * length xs1 + 1).
+      assert (Hlen : length xs = length xs1 + S (length xs2)) by (rewrite Hxs, app_length; reflexivity).
+      split; [lia|]. split; [lia|]. split; [lia|].
+      rewrite Hn, Hw. fold (ewx cfg xs). rewrite Hxs at 1 2. rewrite firstn_len_app, ewx_firstn.
+      split; [reflexivity|]. split; [reflexivity|].
+      unfold outcome. rewrite Hpc. split; intros; discriminate.
+    - exists (length xs1), (2 * length xs1 + 1).
+      assert (Hlen : length xs = length xs1 + S (length xs2)) by (rewrite Hxs, app_length; reflexivity).
+      split; [lia|]. split; [lia|]. split; [lia|].
+      cbn [s_notes s_wlog]. fold (ewx cfg xs). rewrite Hxs at 1 2. rewrite firstn_len_app, ewx_firstn.
+      split; [reflexivity|]. split; [reflexivity|].
+      unfold outcome. cbn [s_pc]. rewrite pc_ret. split; intros; discriminate.
+    - destruct Hph as (Hpc & _ & Hw & Hn & _).
+      exists (length xs1), (2 * length xs1 + 2).
+      assert (Hlen : length xs = length xs1 + S (length xs2)) by (rewrite Hxs, app_length; reflexivity).
+      split; [lia|]. split; [lia|]. split; [lia|].
+      rewrite Hn, Hw. fold (ewx cfg xs). rewrite Hxs at 1 2. rewrite firstn_len_app, ewx_firstn.
+      split; [reflexivity|]. split; [reflexivity|].
+      unfold outcome. rewrite Hpc. split; intros; discriminate.
+    - exists (length xs), (2 * length xs).
+      split; [lia|]. split; [lia|]. split; [lia|].
+      cbn [s_notes s_wlog]. fold (ewx cfg xs). rewrite firstn_all.
+      rewrite <- (ewx_length cfg xs), firstn_all.
+      split; [reflexivity|]. split; [reflexivity|].
+      unfold outcome. cbn [s_pc]. split; [intros; discriminate|].
+      intros r Hr. injection Hr as <-. split; reflexivity.
+  Qed.
+
+  (* liveness: read everything pending in one chunk, then step the operation; the count of
+     remaining sub-phases strictly decreases *)
+  Lemma at_point_advance (m : nat) (s : ssys) :
+    at_point cfg o xs m s -> 0 < m ->
+    exists frag m', fault_free frag = true /\ m' < m /\ at_point cfg o xs m' (run sfeed cfg frag s).
+  Proof.
+    intros Hat Hm.
+    inversion Hat as
+        [xs1 x xs2 stales p q Hxs Hex Hss Hin Hesc Em Es
+        |xs1 x xs2 stales st s0 Hxs Hex Hss Hin Hsk Hph Em Es
+        |xs1 x xs2 stales p q buf Hxs Hex Hss Hst Hesc Em Es
+        |xs1 x xs2 stales s0 Hxs Hex Hss Hph Em Es
+        |p q Em Es]; subst m s.
+    - destruct (at_point_step cfg o xs _ _ Op Hat (or_introl eq_refl)) as (m' & _ & Hat' & Hlt).
+      exists [Op], m'. split; [reflexivity|]. split; [|exact Hat'].
+      apply Hlt; [reflexivity|]. exists (2 * length xs2 + 1). lia.
+    - destruct (exchange_ok_spec _ _ _ _ Hex) as (Hecho & _).
+      specialize (Hecho _ Hin). rewrite Hsk in Hecho.
+      destruct (phase_live _ sfeed _ cfg _ _ _ _ _ _ _ _ Hecho _ Hph) as (frag & j & Hff & Hexit).
+      exists frag, (4 * length xs2 + 2). split; [exact Hff|]. split; [lia|].
+      apply (exit_echo cfg o xs xs1 x xs2 stales st j _ Hxs Hex Hss Hexit).
+    - destruct (at_point_step cfg o xs _ _ Op Hat (or_introl eq_refl)) as (m' & _ & Hat' & Hlt).
+      exists [Op], m'. split; [reflexivity|]. split; [|exact Hat'].
+      apply Hlt; [reflexivity|]. exists (2 * length xs2). lia.
+    - destruct (exchange_ok_spec _ _ _ _ Hex) as (_ & Hresp & _).
+      destruct (phase_live _ sfeed _ cfg _ _ _ _ _ _ _ _ Hresp _ Hph) as (frag & j & Hff & Hexit).
+      exists frag, (4 * length xs2). split; [exact Hff|]. split; [lia|].
+      apply (exit_resp cfg o xs xs1 x xs2 stales j _ Hxs Hex Hss Hexit).
+    - lia.
+  Qed.
+
+  Lemma at_point_live (m : nat) : forall s : ssys,
+    at_point cfg o xs m s ->
+    exists sched', fault_free sched' = true /\ at_point cfg o xs 0 (run sfeed cfg sched' s).
+  Proof.
+    induction m as [m IH] using lt_wf_ind. intros s Hat.
+    destruct (Nat.eq_0_gt_0_cases m) as [E | Hpos].
+    - subst m. exists []. split; [reflexivity | exact Hat].
+    - destruct (at_point_advance m s Hat Hpos) as (frag & m' & Hff & Hlt & Hat').
+      destruct (IH m' Hlt _ Hat') as (rest & Hff' & Hat'').
+      exists (frag ++ rest). split.
+      + rewrite fault_free_app, Hff, Hff'. reflexivity.
+      + rewrite run_app. exact Hat''.
+  Qed.
+
+  Lemma at_point_done (s : ssys) : at_point cfg o xs 0 s -> outcome s = Some (inl (map x_result xs)).
+  Proof.
+    intros Hat. inversion Hat as [| | | |p q Em Es]; try lia. reflexivity.
+  Qed.
+
+  (* the initial state *)
+  Lemma session_sys_at_point (start : bytes) :
+    mem_byte 27 start = false ->
+    session_ok cfg o [drop_cr start] xs = true ->
+    at_point cfg o xs (4 * length xs) (session_sys cfg o start xs).
+  Proof.
+    intros Hesc Hss. unfold session_sys, init_sys.
+    apply (enter_next cfg o xs [] xs [drop_cr start] start [] eq_refl Hss).
+    - destruct xs as [|x rest]; [congruence|]. intros _.
+      apply session_ok_cons in Hss. destruct Hss as [Hex _].
+      destruct (exchange_ok_spec _ _ _ _ Hex) as (_ & _ & _ & _ & _ & Hea). exact Hea.
+    - left. reflexivity.
+    - exact Hesc.
+  Qed.
+End SessMain.
+
+(* ---------- the session theorems ---------- *)
+
+Theorem session_safe : forall cfg o start xs sched,
+  fault_free sched = true -> mem_byte 27 start = false ->
+  session_ok cfg o [drop_cr start] xs = true ->
+  let st := run sfeed cfg sched (session_sys cfg o start xs) in
+  exists k w, (k <= length xs)%nat /\ (2 * k <= w <= 2 * k + 2)%nat /\ (w <= 2 * length xs)%nat /\
+    s_notes st = map (fun x => (TAG_RESULT, x_result x)) (firstn k xs) /\
+    s_wlog st = firstn w (expected_writes cfg (map x_cmd xs)) /\
+    (forall e, outcome st <> Some (inr e)) /\
+    (forall r, outcome st = Some (inl r) -> k = length xs /\ r = map x_result xs).
+Proof.
+  intros cfg o start xs sched Hff Hesc Hss st.
+  destruct (at_point_run cfg o xs sched _ _ Hff (session_sys_at_point cfg o xs start Hesc Hss))
+    as (m & _ & Hat).
+  exact (at_point_safe cfg o xs m st Hat).
+Qed.
+
+Theorem session_live : forall cfg o start xs sched,
+  fault_free sched = true -> mem_byte 27 start = false ->
+  session_ok cfg o [drop_cr start] xs = true ->
+  exists sched', fault_free sched' = true /\
+    outcome (run sfeed cfg (sched ++ sched') (session_sys cfg o start xs)) = Some (inl (map x_result xs)).
+Proof.
+  intros cfg o start xs sched Hff Hesc Hss.
+  destruct (at_point_run cfg o xs sched _ _ Hff (session_sys_at_point cfg o xs start Hesc Hss))
+    as (m & _ & Hat).
+  destruct (at_point_live cfg o xs m _ Hat) as (sched' & Hff' & Hdone).
+  exists sched'. split; [exact Hff'|]. rewrite run_app. apply (at_point_done cfg o xs _ Hdone).
+Qed.
+
+(* ---------- non-vacuity ---------- *)
+
+Definition ex_cfg : chan_cfg := mkCfg 1000 rx_prompt_pattern [10%N] 0%Z.
+Definition ex_crlf : bytes := [13%N; 10%N].
+Definition ex_start : bytes := bs "r1# ".
+(* two exchanges, CRLF line ends, blanks after the prompt (1 resp. 2) *)
+Definition ex_x1 : exchange :=
+  mkEx (bs "sh a") (bs "sh a") (ex_crlf ++ bs "out1 line" ++ ex_crlf ++ bs "r1# ") 0 14 (bs "out1 line").
+Definition ex_x2 : exchange :=
+  mkEx (bs "sh b") (bs "sh b") (ex_crlf ++ bs "out2" ++ ex_crlf ++ bs "r1#  ") 0 9 (bs "out2").
+Definition ex_xs : list exchange := [ex_x1; ex_x2].
+
+Example ex_session_ok : session_ok ex_cfg default_opts [drop_cr ex_start] ex_xs = true.
+Proof. vm_compute. reflexivity. Qed.
+
+Example ex_start_noesc : mem_byte 27 ex_start = false.
+Proof. reflexivity. Qed.
+
+(* 1-byte and large reads interleaved with operation steps *)
+Definition ex_sched : list ev :=
+  [Rd 1; Op; Rd 1; Rd 7; Op; Rd 100; Op;
+   Rd 1; Op; Rd 1; Rd 7; Op; Rd 100; Op;
+   Rd 1; Op; Rd 1; Rd 7; Op; Rd 100; Op;
+   Rd 1; Op; Rd 1; Rd 7; Op; Rd 100; Op].
+
+Example ex_sched_fault_free : fault_free ex_sched = true.
+Proof. reflexivity. Qed.
+
+Example ex_run_outcome :
+  outcome (run sfeed ex_cfg ex_sched (session_sys ex_cfg default_opts ex_start ex_xs))
+  = Some (inl [bs "out1 line"; bs "out2"]).
+Proof. vm_compute. reflexivity. Qed.
+
+(* part-way: first result delivered, three writes done, second echo being read byte-wise *)
+Example ex_run_midway :
+  let st := run sfeed ex_cfg (firstn 20 ex_sched) (session_sys ex_cfg default_opts ex_start ex_xs) in
+  (s_notes st, s_wlog st, s_acc st, s_queue st, outcome st)
+  = ([(TAG_RESULT, bs "out1 line")],
+     [(bs "sh a", false); ([10%N], false); (bs "sh b", false)],
+     bs "s", [bs "h b"], None).
+Proof. vm_compute. reflexivity. Qed.
+
+(* the theorems apply to the example *)
+Example ex_session_live :
+  exists sched', fault_free sched' = true /\
+    outcome (run sfeed ex_cfg (firstn 20 ex_sched ++ sched') (session_sys ex_cfg default_opts ex_start ex_xs))
+    = Some (inl (map x_result ex_xs)).
+Proof. apply session_live; [reflexivity | exact ex_start_noesc | exact ex_session_ok]. Qed.
+
+(* regression: the empty-command corner.  With a fuzzy (non-exact) empty command the echo read is
+   skipped; a stale tail would then leak into the response phase ("X" + prompt is returned at once
+   by the schedule below).  [exchange_ok] rejects such sessions (its [[], false] branch demands an
+   empty stale tail as well as an empty echo burst). *)
+Definition ex_bad_x : exchange := mkEx [] [] ([10%N] ++ bs "r1#") 4 4 [].
+Definition ex_bad_start : bytes := bs "X" ++ [10%N] ++ bs "r1#".
+Example ex_bad_rejected : session_ok ex_cfg default_opts [drop_cr ex_bad_start] [ex_bad_x] = false.
+Proof. vm_compute. reflexivity. Qed.
+Example ex_bad_would_leak :
+  outcome (run sfeed ex_cfg [Op; Rd 100; Op; Op] (session_sys ex_cfg default_opts ex_bad_start [ex_bad_x]))
+  = Some (inl [bs "X"]).
+Proof. vm_compute. reflexivity. Qed.
+
+Print Assumptions failed_is_final.
+Print Assumptions deadline_at_until_fail.
+Print Assumptions phase_lemma.
+Print Assumptions phase_live.
+Print Assumptions session_safe.
+Print Assumptions session_live.
